@@ -250,6 +250,7 @@ class Runtime:
         f = self._fault_for(rec, when)
         if f is None:
             return
+        chained = f.get("exc") == "chained"  # ``raise X from Y`` inside the node: X, not its cause Y, is the node's error
         exc = EXC_KINDS.get(f.get("exc", "plain"), InjectedFault)(f.get("fid", 0), rec["n"])
         exc.args_seen = dict(rec["a"])
         exc.label = self.labels.get(rec["r"], ())
@@ -258,6 +259,8 @@ class Runtime:
         self.fired.append({"fid": exc.fid, "key": rec["key"], "when": when})
         self.log("raise", n=rec["n"], r=rec["r"], i=rec["i"], key=rec["key"], fid=exc.fid, c=rec["c"])
         self._run_monitors(self.history[-1])
+        if chained:
+            raise exc from LookupError(f"root cause of the injected fault {exc.fid}")
         raise exc
 
     def _run_monitors(self, rec: dict) -> None:
